@@ -15,9 +15,9 @@ class C13(Prop):
     named_errors = set()     # the statement names no error kind: errors agree by class
     pid = "C13"
     title = "version information is reported completely and unaltered"
-    thm_modules = ["PeliteModel.Thm.C13", "PeliteModel.Thm.C13Queries", "PeliteModel.Thm.ImageLayout"]
-    gens = [gen_version.gen_wellformed, gen_version.gen_layouts, gen_version.gen_variants, gen_version.gen_corrupt,
-            gen_version.gen_small, gen_version.gen_langparse, gen_version.gen_zero_records]
+    thm_modules = ["PeliteModel.Thm.C13", "PeliteModel.Thm.C13Queries", "PeliteModel.Thm.C13Source", "PeliteModel.Thm.ImageLayout", "PeliteModel.Thm.C13Layout", "PeliteModel.Thm.Witnesses64"]
+    gens = [gen_version.gen_wellformed, gen_version.gen_layouts, gen_version.gen_variants, gen_version.gen_bytecounted,
+            gen_version.gen_corrupt, gen_version.gen_small, gen_version.gen_langparse, gen_version.gen_zero_records]
 
     def oracle(self, op, impl, model, spec):
         """implementation against the specification's answer computed from the abstract tree"""
@@ -27,6 +27,11 @@ class C13(Prop):
             # a block of the generator's LayoutWriter: must be a documented layout of its tree
             if spec_field(spec, "lay") != "1":
                 return "the generator's layout is not accepted as a documented layout of its tree (Spec.VInfo.isBlockB)"
+        elif "tree=B/" in op:
+            # some String stores its value length in bytes (gen_bytecounted): no claim about the block; the
+            # documented answer is claimed only when the layout test accepts it (hyp=1: every marked string
+            # has no value, which is the same structure under both conventions)
+            pass
         else:
             if spec_field(spec, "enc") == "0":
                 return "the generator's writer and the reference writer (Spec.encode) disagree on the block"
@@ -50,6 +55,7 @@ class C13(Prop):
         elif q == "file_info":
             m = re.search(r"strings=(\{.*\})$", got)
             got = m.group(1) if m else got
+        # q == "source": the whole text (hex of its UTF-8 bytes) against Spec.sourceOf (C13_layout_source)
         if got != want:
             return "%s reports %s, the resource holds %s" % (q, got[:400], want[:400])
         return None
